@@ -18,7 +18,6 @@ import (
 	"golang.org/x/tools/go/ssa"
 )
 
-
 // constValue returns the value of the constant with the
 // dynamic type tag appropriate for c.Type().
 func constValue(c *ssa.Const) value {
@@ -957,7 +956,6 @@ func typeAssert(i *interpreter, instr *ssa.TypeAssert, itf iface) value {
 	}
 	return v
 }
-
 
 // callBuiltin interprets a call to builtin fn with arguments args,
 // returning its result.
